@@ -174,6 +174,85 @@ func verifLemma_C09_delta_uint64s(vs []uint64, buffer []byte, k int) {
 	verifrt.Assert(got[k] == vs[k], "element")
 }
 
+// The same for delta coded []int (MarshalDeltaCodedInts).
+func diE(vs []int, j int) uint64 {
+	last := 0
+	if j > 0 {
+		last = vs[j-1]
+	}
+	return ZigzagEncode(int64(vs[j] - last))
+}
+
+func dipos(vs []int, j int) int {
+	if j <= 0 {
+		return 0
+	}
+	return dipos(vs, j-1) + uvlen(diE(vs, j-1))
+}
+
+func diAt(b []byte, vs []int, j int) bool {
+	p := dipos(vs, j)
+	return uvOK(b, p) && uvVal(b, p) == diE(vs, j) && uvLen(b, p) == uvlen(diE(vs, j))
+}
+
+// C09: delta coded int sequences of every length round-trip.
+func verifLemma_C09_delta_ints(vs []int, buffer []byte, k int) {
+	n := MarshalDeltaCodedInts(vs, buffer)
+	verifrt.Ghost("w", vs)
+	got, m := UnmarshalDeltaCodedInts(make([]int, 0), len(vs), buffer)
+	verifrt.Assert(m == n, "consumes-what-was-written")
+	verifrt.Assert(len(got) == len(vs), "length")
+	verifrt.Assume(0 <= k && k < len(vs))
+	verifrt.Assert(got[k] == vs[k], "element")
+}
+
+// C09: fixed-width little-endian integers of 1..8 bytes round-trip, and
+// Uint64Length is the least width that holds the value.
+func verifLemma_C09_uint64_fixed(v uint64, l int) {
+	verifrt.Assume(1 <= l && l <= 8)
+	verifrt.Assume(l == 8 || v < 1<<(8*uint(l)))
+	var buffer [8]byte
+	MarshalUint64(v, l, buffer[0:])
+	verifrt.Assert(UnmarshalUint64(l, buffer[0:]) == v, "fixed-width-roundtrip")
+}
+
+func verifLemma_C09_uint64_length(v uint64) {
+	l := Uint64Length(v)
+	verifrt.Assert(1 <= l && l <= 8, "length-range")
+	verifrt.Assert(l == 8 || v < 1<<(8*uint(l)), "length-holds-value")
+	verifrt.Assert(l == 1 || v >= 1<<(8*uint(l-1)), "length-is-least")
+	var buffer [8]byte
+	MarshalUint64(v, l, buffer[0:])
+	verifrt.Assert(UnmarshalUint64(l, buffer[0:]) == v, "least-width-roundtrip")
+}
+
+// C09: the byte-array table header round-trips for the values that fit its
+// three 32-bit fields (the builder's call sites are checked against that range).
+func verifLemma_C09_bytearrays_layout(items int, offsetBytes int, maxItemLength int) {
+	verifrt.Assume(0 <= items && items < 1<<32)
+	verifrt.Assume(0 <= offsetBytes && offsetBytes < 1<<32)
+	verifrt.Assume(0 <= maxItemLength && maxItemLength < 1<<32)
+	in := ByteArraysLayout{Items: items, OffsetBytes: offsetBytes, MaxItemLength: maxItemLength}
+	var buffer [ByteArraysLayoutLength]byte
+	n := in.Marshal(buffer[0:])
+	var out ByteArraysLayout
+	m := out.Unmarshal(buffer[0:])
+	verifrt.Assert(n == ByteArraysLayoutLength && m == n, "layout-length")
+	verifrt.Assert(out == in, "layout-roundtrip")
+}
+
+// C09: the hash-map layout header (two bytes).
+func verifLemma_C09_uint64map_layout(bucketBits int, tagBits int) {
+	verifrt.Assume(0 <= bucketBits && bucketBits < 256 && 0 <= tagBits && tagBits < 256)
+	in := Uint64MapLayout{BucketBits: bucketBits, TagBits: tagBits}
+	var buffer [Uint64MapLayoutLength]byte
+	n := in.Marshal(buffer[0:])
+	var out Uint64MapLayout
+	m := out.Unmarshal(buffer[0:])
+	verifrt.Assert(n == Uint64MapLayoutLength && m == n, "map-layout-length")
+	verifrt.Assert(out == in, "map-layout-roundtrip")
+}
+
 // ---- C10 -----------------------------------------------------------------
 
 // C10: zigzag coding is invertible over the whole int64 domain.
